@@ -331,7 +331,7 @@ pub fn run(args: Args) -> ! {
         let sem = crate::tomlref::to_sem(&stx);
         let seq: Vec<&SemStmt> = sem.iter().collect();
         let mut st = Stats::new();
-        if let Err(f) = check_seq(&seq, 0, &mut st, known_f12) {
+        if let Err(f) = guard(|| check_seq(&seq, 0, &mut st, known_f12)) {
             rep.violation("replay", None, &f);
         }
         rep.stats.merge(st);
@@ -346,7 +346,7 @@ pub fn run(args: Args) -> ! {
                 let sem = crate::tomlref::to_sem(&stx);
                 let seq: Vec<&SemStmt> = sem.iter().collect();
                 let mut st = Stats::new();
-                if let Err(f) = check_seq(&seq, 0, &mut st, known_f12) {
+                if let Err(f) = guard(|| check_seq(&seq, 0, &mut st, known_f12)) {
                     rep.violation("regression", None, &f);
                 }
                 rep.stats.merge(st);
